@@ -1,6 +1,8 @@
 (* C17 - boolean checkers evaluated on what haptools.clump wrote / returned.
-   clump relation: the rows of the .clump file (index ID, member IDs);
-   computeld relation: the r2 returned by ComputeLD. *)
+   clump relation: the rows of the .clump file (all six columns; every member as printed);
+   agree compares them with the model run with the code's float64 window test, holds checks the
+   greedy-clumping property on the IDs with the window as a rational test;
+   computeld relation: the r2 returned by ComputeLD and the roots its cubic solver found. *)
 From HV Require Import Prelude PearsonQ Stats C17_Model.
 From Coq Require Import QArith.
 Open Scope Z_scope.
